@@ -21,8 +21,20 @@ def run(prop, level, generator, rule, assumptions=(), models=(), shards=None):
     events, meta = [], {}
     skipped = 0
     mp = mpmath.mp
+    hung = None
     try:
-        for item in generator(chk, mpmath, rng):
+        it = generator(chk, mpmath, rng)
+        while True:
+            # a library call that never returns must not turn the check into one that never ends: ten minutes for one
+            # generated case (normally milliseconds to seconds) aborts the generation and is reported
+            try:
+                with time_limit(chk.pick(600, 1800)):
+                    item = next(it)
+            except StopIteration:
+                break
+            except TimeLimit:
+                hung = dict(meta[len(events) - 1]) if events else {}
+                break
             if item is None:
                 skipped += 1
                 ex.take_defs()
@@ -44,6 +56,9 @@ def run(prop, level, generator, rule, assumptions=(), models=(), shards=None):
         mp.prec = 53
         mpmath.iv.prec = 53
     bad = tlc.judge(events, tag=prop, shards=shards or tlc.NCPU)
+    if hung is not None:
+        chk.violation("no-return", "a library call made by the case after this one did not return within the time limit (generation aborted there): " + json.dumps(hung, default=str)[:300],
+                      {"after": hung})
     for ev in events:
         m = meta[ev["id"]]
         chk.count()
